@@ -311,7 +311,9 @@ def main_check(mod, tier, seed):
     """Run one property check. Returns the process exit code."""
     t0 = time.monotonic()
     known = load_known(mod.ID)
-    known_sigs = {k["signature"] for k in known}
+    # "mute": false entries are excluded from the search by construction (the generator avoids the region);
+    # their example is still re-executed below, but the same signature elsewhere is reported
+    known_sigs = {k["signature"] for k in known if k.get("mute", True)}
     col0 = Collector(known_sigs)
 
     # 1. replay tier: saved cases (regressions and seed corpus) first, without Hypothesis
@@ -339,8 +341,7 @@ def main_check(mod, tier, seed):
             col0.known_hits[k["signature"]] += 1
         else:
             stale.append(k["signature"])
-        for s in sigs - known_sigs:
-            pass  # other signatures from that example are picked up by the search below if real
+
 
     # 3. generated search
     shards = mod.plan(tier, seed)
@@ -374,7 +375,8 @@ def main_check(mod, tier, seed):
 
 def main_replay(mod, path):
     data = json.loads(Path(path).read_text())
-    known_sigs = {k["signature"] for k in load_known(mod.ID)}
+    known_sigs = {k["signature"] for k in load_known(mod.ID)
+                  if k.get("mute", True) or fingerprint(k["example"]) == fingerprint(data["case"])}
     fails = list(mod.replay_case(data["case"]) or ())
     rc = 0
     for f in fails:
